@@ -234,7 +234,7 @@ PLAN["C07"] = {
     "level": "exploration",
     "rule": ("rapid, on real Groth16 systems set up in-process (quick: insertion and deletion at depth 3/batch 2; thorough: + (2,3),(4,1) in both modes, (2,4) insertion, (1,4) deletion): parameter sets that are VALID (generated histories/batches as C01/C02, "
              "input hash = reference packing hash, reduced or as the raw 256-bit Keccak value), INVALID by one batch mutation (every class of C01/C02 expressible with uint32 indices), carrying a WRONG HASH, or of the WRONG SHAPE "
-             "(batch+-1, depth+-1, ragged, empty, short index/commitment lists). Validity is decided by the reference relation + packing. Oracle: valid => Prove* returns (proof, nil) and, for every candidate public input "
+             "(batch+-1, depth+-1, ragged, empty, short index/commitment lists, and ONE array longer or shorter than the others — 1-3 extra Merkle proofs (full, copied, empty, nil or over-long rows), an extra commitment or index — so that the valid batch is a prefix of the set; TestC07_Shapes draws hundreds of these per mode, they are refused before any proving work). Validity is decided by the reference relation + packing. Oracle: valid => Prove* returns (proof, nil) and, for every candidate public input "
              "h, h+r, h+2r (accept) and h+-1, h xor one bit, hash of a perturbed batch, 0, random (reject), both Verify* of the same system and gnark's groth16.Verify on a harness-built public witness agree with 'candidate == h mod r'; "
              "the proving system of the other mode with the same dimensions rejects the proof through either Verify entry point; invalid or mis-shaped => (nil proof, error), never a panic. "
              "Every case is non-trivial (each contains rejecting candidates, a cross-mode attempt or an invalid/mis-shaped set); distinct = SHA-1 of the canonical case."),
@@ -243,9 +243,11 @@ PLAN["C07"] = {
     "level_text": "Exploration on 2-8 real proving systems with dozens to hundreds of generated parameter sets each; acceptance is cross-checked with a verification path that does not use the code under test's witness construction.",
     "level_note": "independent setups per run (toxic waste discarded); blinding factors are random and not controlled by VERIF_SEED",
     "quick": [{"test": "TestC07_Insertion", "checks": 45, "timeout": 900},
-              {"test": "TestC07_Deletion", "checks": 45, "timeout": 900}],
+              {"test": "TestC07_Deletion", "checks": 45, "timeout": 900},
+              {"test": "TestC07_Shapes", "checks": 150, "shards": 2, "timeout": 900}],
     "thorough": [{"test": "TestC07_Insertion", "checks": 150, "shards": 8, "timeout": 3000},
-                 {"test": "TestC07_Deletion", "checks": 150, "shards": 8, "timeout": 3000}],
+                 {"test": "TestC07_Deletion", "checks": 150, "shards": 8, "timeout": 3000},
+                 {"test": "TestC07_Shapes", "checks": 600, "shards": 8, "timeout": 3000}],
 }
 
 PLAN["C11"] = {
@@ -253,7 +255,9 @@ PLAN["C11"] = {
     "rule": ("(Small, rapid) many independent proving systems: ProvingSystem values whose constraint system is a generated tiny circuit (1-40 multiplications, 0-3 bit-decomposition hints, 1-3 public inputs; fresh Groth16 setup each) and "
              "whose TreeDepth (1..32) and BatchSize (1..4096, incl. 258, 513 and values above 2^depth) always differ, pushed through a drawn sequence of 1-4 operations from {write compressed + read, write raw + read, "
              "the same through ReadSystemFromFile on a temp file}. (Real, rapid) real systems (quick: deletion depth 2/batch 3; thorough: + insertion (3,2), (4,1), deletion (1,4)) through file-raw, compressed+raw, and in thorough the CLI "
-             "convert-to-raw, followed by cross prove/verify of generated valid batches through ProveX/VerifyX in both directions. Oracle after every operation: same depth and batch, and gnark's raw serialisation of pk and vk and the serialised "
+             "convert-to-raw, followed by cross prove/verify of generated valid batches through ProveX/VerifyX in both directions. (CLIChain, rapid; CLIChainReal on real 2x3/3x2 systems) the built binary's convert-to-raw run 1-4 times in a row on files, "
+             "starting from a compressed or a raw file, with the output a fresh path, an existing longer file, or the INPUT ITSELF (same path, a respelled path, a symlink or a hard link to it): exit 0 => the output reloads to the original system, is byte-for-byte "
+             "WriteRawTo of it, and (distinct output) the input still reloads; a non-zero exit is tolerated only for the aliased outputs and only if the input file still reloads to the original system. Oracle after every operation: same depth and batch, and gnark's raw serialisation of pk and vk and the serialised "
              "constraint system are byte-identical to the original's; reported byte counts equal the real ones; reloaded proves => original verifies and vice versa. Non-trivial = depth != batch with at least one conversion, or a real system; "
              "distinct = SHA-1 of (shape, operations)."),
     "assumptions": A_COMMON + ["gnark's WriteRawTo/WriteTo of keys and constraint systems are trusted as canonical forms for equality"],
@@ -261,9 +265,13 @@ PLAN["C11"] = {
     "level_text": "Exploration: hundreds of independent small systems per run with byte-distinct header values, all four read/write paths in sequences; real systems at depth != batch dimensions with interchangeability checked by actual proofs.",
     "level_note": "small systems exercise the same WriteTo/WriteRawTo/UnsafeReadFrom/ReadSystemFromFile code as real ones (the code is circuit-agnostic); real systems are fewer because files are tens of MB",
     "quick": [{"test": "TestC11_Small", "checks": 600, "shards": 2, "timeout": 900},
-              {"test": "TestC11_Real", "checks": 4, "timeout": 900}],
+              {"test": "TestC11_Real", "checks": 4, "timeout": 900},
+              {"test": "TestC11_CLIChain", "checks": 60, "cli": True, "timeout": 900},
+              {"test": "TestC11_CLIChainReal", "rapid": False, "cli": True, "timeout": 900}],
     "thorough": [{"test": "TestC11_Small", "checks": 4000, "shards": 8, "timeout": 3000},
-                 {"test": "TestC11_Real", "checks": 10, "shards": 4, "cli": True, "timeout": 3000}],
+                 {"test": "TestC11_Real", "checks": 10, "shards": 4, "cli": True, "timeout": 3000},
+                 {"test": "TestC11_CLIChain", "checks": 400, "shards": 4, "cli": True, "timeout": 3000},
+                 {"test": "TestC11_CLIChainReal", "rapid": False, "shards": 2, "cli": True, "timeout": 3000}],
 }
 
 PLAN["C15"] = {
@@ -374,17 +382,19 @@ PLAN["C17"] = {
              "definitions with the dimension-suffixed names; a quarter of the cases run 'extract-circuit' through the built binary in a fresh process with GOMAXPROCS in {1,2,3,16} (a third of those at (30,4)) and compare with the in-process text. "
              "(ModelSemantics, rapid) translation validation by generated inputs: an interpreter for the extracted Lean DSL (honest-prover semantics of ProvenZK's gates) runs the COMMITTED (30,4) model and freshly extracted "
              "models at (3,2),(2,3),(1,1),(5,1) on generated witnesses - valid batches, every invalid class of C01/C02, wrong public inputs, and alternative 256-bit decompositions v+k*r answered alike on both sides - and its verdict must equal "
-             "that of the compiled R1CS of the same dimensions (BuildR1CSX). Every comparison is non-trivial; definitions/identifiers are distinct by name, sweep points and witnesses by SHA-1."),
+             "that of the compiled R1CS of the same dimensions (BuildR1CSX). (ModelFocus, rapid) the same comparison on witnesses built to violate exactly ONE membership assertion with everything downstream consistent (a write onto an occupied leaf with that write's post-root; a deletion presenting the wrong item on the genuine path): the classes that separate 'asserted' from 'not asserted'. Every comparison is non-trivial; definitions/identifiers are distinct by name, sweep points and witnesses by SHA-1."),
     "assumptions": A_COMMON + ["the Lean proofs themselves are NOT rebuilt: the toolchain (lean4 nightly-2023-07-12), mathlib commit and ProvenZK pinned by the repository cannot be installed offline; the property as stated is about the model text and identifier closure"],
     "technique": "differential testing of extraction output against the committed artefact (per definition), identifier-closure check, metamorphic determinism sweep, and differential evaluation of the Lean model against the compiled circuit on generated witnesses",
     "level_text": "Exhaustive over the definitions of the extracted model at the proof dimensions and over the identifiers the proofs use; sampled sweep of other dimensions and process configurations for determinism.",
     "level_note": "decided on the extracted model text plus sampled semantic agreement between model and compiled circuit; does not re-check that the Lean theorems still hold; the interpreter resolves existentials as an honest prover would",
     "quick": [{"test": "TestC17_Committed", "rapid": False, "timeout": 600},
               {"test": "TestC17_Sweep", "checks": 16, "shards": 2, "cli": True, "timeout": 900},
-              {"test": "TestC17_ModelSemantics", "checks": 25, "shards": 3, "timeout": 900}],
+              {"test": "TestC17_ModelSemantics", "checks": 25, "shards": 3, "timeout": 900},
+              {"test": "TestC17_ModelFocus", "checks": 14, "timeout": 900}],
     "thorough": [{"test": "TestC17_Committed", "rapid": False, "timeout": 600},
                  {"test": "TestC17_Sweep", "checks": 60, "shards": 8, "cli": True, "timeout": 3000},
-                 {"test": "TestC17_ModelSemantics", "checks": 150, "shards": 12, "timeout": 3000}],
+                 {"test": "TestC17_ModelSemantics", "checks": 150, "shards": 12, "timeout": 3000},
+                 {"test": "TestC17_ModelFocus", "checks": 60, "shards": 4, "timeout": 3000}],
 }
 
 PLAN["C12"] = {
